@@ -37,7 +37,7 @@ def macro_defs(ms):
     return out
 
 
-def run(report, max_lines=260):
+def run(report, max_lines=1200, max_insns=400):
     with open(os.path.join(REPO, "tests", "configuration.yaml")) as f:
         entries = yaml.safe_load(f)["test_matching"]
     rules, listings, pairs, meta = [], [], [], []
@@ -78,8 +78,13 @@ def run(report, max_lines=260):
     obs = matchpipe.drive({"rules": rules, "listings": listings, "pairs": pairs}, tag="repo")
     by = {(o["r"], o["l"]): o for o in obs}
     cases = []
+    kept_meta, kept_pairs = [], []
     for (ri, li), m in zip(pairs, meta):
         o = by[(ri, li)]
+        if o.get("stream", "").count("|") > max_insns:
+            continue       # TLC's recursive string operators are not meant for listings of thousands of instructions
+        kept_meta.append(m)
+        kept_pairs.append([ri, li])
         c = matchpipe.case_of(o, 0, 0, m["mfm"], m["ofm"])
         c.update(pattern=m["pattern"], macros=m["macros"], ranged=m["ranged"])
         cases.append(c)
@@ -94,4 +99,4 @@ def run(report, max_lines=260):
             verdicts[s["idx"] - 1] = s["verdict"]
     tlc.cleanup(tv)
     os.unlink(path)
-    return meta, cases, verdicts, [by[tuple(p)] for p in pairs]
+    return kept_meta, cases, verdicts, [by[tuple(p)] for p in kept_pairs]
